@@ -62,10 +62,11 @@ theorem stop_restores_queued_counterexample :
   revert this
   decide
 
-/-- F-C53b is reachable in the model's terms: the same flow submitted twice, the first occurrence taken -/
+/-- F-C53b/c is reachable in the model's terms: the same flow submitted twice, the first occurrence taken and its
+    request out (server connection open) -/
 theorem stop_blocked_reachable :
     ∃ s, Reach [okAttr] [{ cur := cur0, backup := none }] s ∧ stopBlocked s = true ∧ step s .stop = none :=
-  ⟨_, ⟨[.start [0, 0], .take], rfl⟩, by decide⟩
+  ⟨_, ⟨[.start [0, 0], .take, .send], rfl⟩, by decide⟩
 
 /-! ### liveness: "every replayed flow ends with a response or an error"
 
